@@ -1,6 +1,7 @@
 package props
 
 import (
+	"os"
 	"time"
 
 	"cqlsim/world"
@@ -14,6 +15,9 @@ func init() { Scenarios["SMOKE"] = smoke }
 // boot starts one proxy against the world's nodes and waits until it serves.
 func boot(e *Env, cfg world.Config) (*world.World, *world.ProxyInst) {
 	cfg.KeepLog = e.Keep
+	if os.Getenv("SIM_PROXYLOG") != "" {
+		cfg.ProxyLog = true
+	}
 	if e.StepCap > 0 && e.StepCap < cfg.MaxSteps {
 		cfg.MaxSteps = e.StepCap
 	}
